@@ -3025,6 +3025,7 @@ const N_ZIP_VARIANTS: usize = 20;
 thread_local! {
 	/// why the last archive was refused (error class or panic location)
 	static ZIP_LAST: std::cell::RefCell<String> = std::cell::RefCell::new(String::new());
+	static ZIP_REFUSALS: std::cell::Cell<u64> = std::cell::Cell::new(0);
 }
 
 /// Feed one archive to a receiver the way the adapter does. Ok(true): finalised; Ok(false): refused
@@ -3043,7 +3044,15 @@ fn feed_zip(rx: &Rx, src: &Source, bytes: &[u8], tag: &str) -> Result<bool, Stri
 		Ok(Err(e)) => format!("refused:{}", err_class(&e)),
 		Err(p) => format!("panic@{}", rel_loc(&p.location)),
 	};
-	rx.chain.clean_txhashset_sandbox();
+	// the node's adapter cleans the unpacking sandbox after a refusal; a node that died during the validation of an
+	// archive never got to it. Every second refusal leaves the sandbox as it is: the next archive must not care
+	let n = ZIP_REFUSALS.with(|c| {
+		c.set(c.get() + 1);
+		c.get()
+	});
+	if n % 2 == 0 {
+		rx.chain.clean_txhashset_sandbox();
+	}
 	ZIP_LAST.with(|l| *l.borrow_mut() = why);
 	Ok(false)
 }
